@@ -322,7 +322,8 @@ OBSERVED = f"imaginary part {{im}}: raised={{raised}}"
     for hname, spec in HAMS.items():
         for ns in steps:
             obs.append(Ob(f"C16.sum[{hname}|n={ns}]", "finite", [EV + ":time_evolution", EV + ":time_evolution_for_term"], sum_ob(hname, spec, ns),
-                          f"U(time_evolution({hname}, t, n_steps={ns})) equals the ordered product of per-term exponentials for time t/{ns}, all t", timeout=300))
+                          f"U(time_evolution({hname}, t, n_steps={ns})) equals the ordered product of per-term exponentials for time t/{ns}, all t", timeout=300,
+                          fallback=vprop.enum_ob("x", [], lambda: [1, 3], _check_native, "").run))
             if ns == 3 and not hname.startswith("2*I"):
                 continue
             obs.append(Ob(f"C16.deriv[{hname}|n={ns}]", "finite", [EV + ":time_evolution_derivatives", EV + ":_generate_circuit_sequence"],
@@ -332,7 +333,7 @@ OBSERVED = f"imaginary part {{im}}: raised={{raised}}"
     # ---- sum structure for ALL Hamiltonians and step counts (Engine V over abstract per-term blocks)
     obs.append(_sum_structure_ob())
     obs.append(vprop.enum_ob("C16.native.enum", [EV + ":time_evolution_for_term", EV + ":time_evolution", EV + ":time_evolution_derivatives"],
-                             lambda: [0, 1, 2], _check_native,
+                             lambda: [0, 1, 2, 3], _check_native,
                              "bounded: natively, per-term circuits equal scipy expm for all strings on <=2 qubits at sample t; sum structure equals the "
                              "concatenation of per-term circuits; derivative vs finite differences (n_steps 1..3)", exhaustive=False))
     from vfw import lean
@@ -445,6 +446,28 @@ def _check_native(mode):
             return False, "unknown method accepted"
         except ValueError:
             pass
+        return True, "ok"
+    if mode == 3:
+        # value level, natively: registers with unused qubits (gaps), overlapping non-commuting terms, repeated terms, 1..4 Trotter steps, several times:
+        # the circuit matrix is the ordered product over steps and listed terms of exp(-i (t/n) c P)
+        hams = [[({0: "X"}, 0.8), ({0: "Z"}, 0.6), ({2: "Y"}, 0.5)], [({0: "X", 3: "X"}, 0.9), ({0: "Z", 3: "X"}, -0.4)], [({1: "Z"}, 1.0), ({1: "X", 3: "Y"}, 0.3), ({3: "Z"}, -0.7)],
+                [({0: "X"}, 0.25), ({0: "Z", 1: "Z"}, 0.5), ({0: "X"}, 0.25)], [({2: "Y"}, 1.1)], [({0: "X", 1: "Y", 2: "Z"}, 0.4), ({1: "X"}, 0.6), ({}, 0.3)]]
+        for spec in hams:
+            H = PauliSum([PauliTerm(dict(o) if o else "I0", float(c)) for o, c in spec])
+            n = max([q for o, _ in spec for q in o], default=0) + 1
+            for steps in (1, 2, 3, 4):
+                for t in (0.37, -1.3):
+                    U = np.array(time_evolution(H, t, n_steps=steps).to_unitary(), dtype=complex)
+                    if U.shape[0] < 2 ** n:
+                        U = np.kron(U, np.eye(2 ** n // U.shape[0]))
+                    W = np.eye(2 ** n, dtype=complex)
+                    for _ in range(steps):
+                        for o, c in spec:
+                            P = get_sparse_operator(PauliTerm(dict(o) if o else "I0", 1.0), n).toarray()
+                            W = scipy.linalg.expm(-1j * (t / steps) * c * P) @ W
+                    ph = W[np.unravel_index(np.argmax(abs(W)), W.shape)] / U[np.unravel_index(np.argmax(abs(W)), W.shape)] if any(not o for o, _ in spec) else 1.0
+                    if not np.allclose(U * ph, W, atol=1e-9):
+                        return False, f"time_evolution of {H} with n_steps={steps}, t={t}: circuit matrix differs from the ordered Trotter product (max deviation {abs(U * ph - W).max():.3g})"
         return True, "ok"
     for hname, spec in HAMS.items():
         for n in (1, 2, 3):
